@@ -105,6 +105,27 @@ CHECKS = {
         design_ref='6/C05',
         note='Finite exploration; recorded defects listed in known_findings.json by (class, clause).',
         technique='TLA+ canonical-form contract evaluated by TLC on traces of accepted inputs'),
+    'C06': dict(
+        category='model_checking',
+        text='TlsWire.tla is an encoder written from the RFC presentation language (records, alert, CCS, handshake header, '
+             'client/server hello with SCSV markers, certificate chain, 18 extension bodies, SSL 2.0 record/hello/error). '
+             'S->C: TLC enumerates a domain of 8568 abstract client hellos with their prescribed bytes; each is built through the '
+             'real constructors (compose must equal the bytes) and parsed (the field values must come back). C->S: corpus '
+             'objects, constructor variations covering every enum member, and large random messages are composed by the '
+             'library and TLC compares the bytes with Enc(abstract value).',
+        design_ref='6/C06',
+        note='Trusted: my transcription of the RFCs; harness/wire_tls.py (field values only, no layout). Structures not '
+             'transcribed (certificate request, certificate status, SKE, HRR, NPN server, SCT) are reported as unmodelled.',
+        technique='independent TLA+ reference encoder evaluated by TLC; replay of TLC-generated messages; trace validation'),
+    'C15': dict(
+        category='model_checking',
+        text='Ja3.tla is the published algorithm as a byte-level walk over the hello. TLC computes the JA3 string for the 8160 '
+             'constructible hellos of the generated domain and for corpus / varied / random hellos from their wire bytes; '
+             'ja3() of the parsed message, a second call, and ja3() after compose+parse must all equal it. Disagreements are '
+             'classified by TLC (GREASE cipher kept, SCSV omitted, other).',
+        design_ref='6/C15',
+        note='Trusted: my reading of the JA3 README; the two deviations pinned by the existing test literals are recorded findings.',
+        technique='independent TLA+ reference (byte-level JA3) evaluated by TLC on generated and recorded hellos'),
 }
 
 NOT_APPLICABLE = {}
